@@ -16,7 +16,7 @@ NAME="$(basename "$(dirname "$PATCH")")"
 WT="/tmp/seedrun/$NAME.$$"
 OUT="/dev/shm/seedout/$NAME.$$"
 mkdir -p /tmp/seedrun "$OUT"
-git -C /repo worktree add -q --detach "$WT" HEAD || exit 3
+git -C /repo worktree add -q --detach "$WT" "${BASE:-HEAD}" || exit 3
 trap 'git -C /repo worktree remove --force "$WT" >/dev/null 2>&1; rm -rf "$OUT"' EXIT
 if ! git -C "$WT" apply "$PATCH"; then echo "patch does not apply"; exit 3; fi
 TIER="${TIER:-quick}"
